@@ -35,7 +35,7 @@ PROPS = {
                 tkeys=['T:crossings', 'K:ordered', 'T:break', 'T:phase3-wmedian', 'T:wmedian-logged', 'T:phase4-sinkcoloring',
                        'T:phase4-valign', 'T:phase4-packright', 'T:phase4-ns', 'T:phase5', 'T:output'],
                 suites=[('c13', 2000, 50000), ('c13-big', 12, 200)], partial=[]),
-    'C14': dict(facts=['Calls'], keys=['C14', 'C14acyclic'], tkeys=['T:phase1', 'K:adj'], suites=[('c14', 2500, 60000)], partial=[]),
+    'C14': dict(facts=['Calls'], keys=['C14', 'C14acyclic'], tkeys=['T:phase1', 'K:adj'], suites=[('c14', 2500, 60000), ('c14-deep', 12, 200)], partial=[]),
     'C15': dict(facts=['Shared'], keys=['C15conc'], race_suites=['concurrent'], tkeys=['T:monitor'], suites=[('concurrent', 40, 600), ('monitor', 1000, 20000)], partial=[]),
     'C16': dict(facts=['Calls', 'Numbers'], keys=['C16'], tkeys=['T:phase4-valign', 'T:phase4-packright', 'T:output', 'K:layersWF', 'T:pre'], suites=[('c16', 2500, 60000), ('e2e-big', 8, 100)], partial=[]),
     'C17': dict(facts=['Numbers', 'Calls', 'Translated'], keys=['C17'], tkeys=['T:phase4-valign', 'T:phase4-packright', 'T:phase4-sinkcoloring', 'T:assignY', 'T:phase5', 'T:output', 'T:phase4-bk', 'T:pipeline-sizes'], suites=[('scale', 2000, 50000), ('e2e', 800, 10000)], partial=[]),
